@@ -44,13 +44,20 @@ def make_cpd(inst, conc, v):
 
 def build_bn(inst, conc, rng, cls=None):
     from pgmpy.models import BayesianNetwork
-    m = (cls or BayesianNetwork)()
     lat = set(inst.get("latents", []))
-    for v in shuffled(inst["nodes"], rng):
-        m.add_node(conc.vn[v], latent=v in lat)
     edges = [(p, v) for v in inst["nodes"] for p in inst["parents"][v]]
-    for p, v in shuffled(edges, rng):
-        m.add_edge(conc.vn[p], conc.vn[v])
+    if rng.random() < 0.35:
+        # the constructor route: edge list + latent set at once, nodes without edges added afterwards
+        m = (cls or BayesianNetwork)([(conc.vn[p], conc.vn[v]) for p, v in shuffled(edges, rng)], latents={conc.vn[v] for v in lat})
+        for v in shuffled(inst["nodes"], rng):
+            if conc.vn[v] not in m.nodes():
+                m.add_node(conc.vn[v], latent=v in lat)
+    else:
+        m = (cls or BayesianNetwork)()
+        for v in shuffled(inst["nodes"], rng):
+            m.add_node(conc.vn[v], latent=v in lat)
+        for p, v in shuffled(edges, rng):
+            m.add_edge(conc.vn[p], conc.vn[v])
     for v in shuffled(inst["nodes"], rng):
         m.add_cpds(make_cpd(inst, conc, v))
     return m
